@@ -68,9 +68,9 @@ var strata = []stratum{
 		return tr.Glyf && !tr.Fvar && !tr.Morx && !tr.Kerx && !tr.Bitmap && (tr.GSUB || tr.GPOS)
 	}, 20},
 	{"cff", func(tr corpus.Traits) bool { return tr.CFF && !tr.Fvar }, 20},
-	{"cff2", func(tr corpus.Traits) bool { return tr.CFF2 }, 2},
+	{"cff2", func(tr corpus.Traits) bool { return tr.CFF2 }, 1},
 	{"variable", func(tr corpus.Traits) bool { return tr.Glyf && tr.Fvar && !tr.Morx }, 20},
-	{"aat", func(tr corpus.Traits) bool { return tr.Morx || tr.Kerx }, 20},
+	{"aat", func(tr corpus.Traits) bool { return tr.Morx || tr.Kerx }, 5},
 	{"bitmap", func(tr corpus.Traits) bool { return tr.Bitmap || tr.SVG }, 4},
 	{"plain", func(tr corpus.Traits) bool {
 		return tr.Glyf && !tr.GSUB && !tr.GPOS && !tr.Fvar && !tr.Morx && !tr.Kerx && !tr.Bitmap
